@@ -15,3 +15,27 @@ pub(crate) fn record(entry: &'static str, nodes: &[AbstractPatternNode]) {
 pub fn take() -> Vec<(&'static str, Vec<String>)> {
   std::mem::take(&mut *RECORDS.lock().unwrap())
 }
+
+static SCOPES: Mutex<Vec<(String, Vec<(String, Option<String>)>)>> = Mutex::new(Vec::new());
+
+fn q(p: &samlang_heap::PStr) -> String {
+  let dbg = format!("{p:?}");
+  dbg.split('"').nth(1).unwrap_or(&dbg).to_string()
+}
+
+/// `available_type_parameters` of a new `TypingContext` (the scope that
+/// `resolve_to_potentially_in_scope_type_parameter_bound` searches, first match wins).
+pub(crate) fn record_scope(
+  current_class: &samlang_heap::PStr,
+  tparams: &[super::type_::TypeParameterSignature],
+) {
+  SCOPES.lock().unwrap().push((
+    q(current_class),
+    tparams.iter().map(|t| (q(&t.name), t.bound.as_ref().map(|b| q(&b.id)))).collect(),
+  ));
+}
+
+/// (class the context was created for, [(type parameter, class of its bound)]), oldest first
+pub fn take_scopes() -> Vec<(String, Vec<(String, Option<String>)>)> {
+  std::mem::take(&mut *SCOPES.lock().unwrap())
+}
